@@ -1,5 +1,6 @@
 // MarlinKZG10::trim, kzg10::UniversalParams::max_degree (C09, C04)
 //@use core ops_gen std
+//@spec ring
 //@typemap /::<E, P, Self>::/ => ::
 //@typemap /::<E, P>::/ => ::
 //@typemap /<E>/ => 
@@ -27,6 +28,7 @@ pub type UniversalParams = kzg10::UniversalParams;
 //@struct file=poly-commit/src/marlin/marlin_pc/data_structures.rs name=CommitterKey
 //@struct file=poly-commit/src/marlin/marlin_pc/data_structures.rs name=VerifierKey
 
+//@spec marlin_srs_spec
 pub open spec fn same_set(a: Seq<usize>, b: Seq<usize>) -> bool { forall|x: usize| a.contains(x) == b.contains(x) }
 // trim's result is a faithful sub-key of pp (oracle side, from the property statement)
 pub open spec fn trim_ok(pp: &UniversalParams, supported_degree: usize, hb: usize, bounds: Option<&[usize]>, ck: &CommitterKey, vk: &VerifierKey) -> bool {
@@ -115,4 +117,57 @@ impl MarlinKZG10 {
 //@closure |v| => |v: &[usize]| -> (w: Vec<usize>) ensures strictly_sorted_usize(w@), same_set(w@, v@), w@.len() <= v@.len()
 //@closure |d| => |d: &usize| -> (r: (usize, G1Affine)) requires *d <= max_degree, max_degree == pp.powers_of_g@.len() - 1 ensures r.0 == *d, r.1 == pp.powers_of_g@[max_degree - *d]
 //@end
+}
+
+// ======================= C01/C09: trim keeps the trapdoor form =======================
+// If the universal parameters are  g beta^i,  gamma_g beta^i,  h,  h beta  (what KZG10::setup returns: clause kzg10.setup.trapdoor_form in
+// units/kzg10_setup.rs), the keys trim returns (trim_ok: the conjunction of the clauses proved for the real MarlinKZG10::trim above) are in the
+// trapdoor form m_srs_ok that the MarlinKZG10 completeness lemma (units/marlin_prover.rs) takes as its hypothesis.
+//@lemma props=C01,C09
+pub proof fn lemma_trim_keeps_trapdoor_form(pp: &UniversalParams, supported_degree: usize, hb: usize, bounds: Option<&[usize]>, ck: &CommitterKey, vk: &VerifierKey, g: FS, gm: FS, beta: FS)
+    requires
+        pp.powers_of_g@.len() >= 1, supported_degree < pp.powers_of_g@.len(), pp.powers_of_g@.len() <= usize::MAX, hb < usize::MAX - 1,
+        forall|i: int| 0 <= i < pp.powers_of_g@.len() ==> (#[trigger] pp.powers_of_g@[i])@ == f_mul(g, f_pow(beta, i as nat)),
+        forall|i: usize| i <= hb + 1 ==> (#[trigger] pp.powers_of_gamma_g@[i])@ == f_mul(gm, f_pow(beta, i as nat)),
+        pp.beta_h@ == f_mul(pp.h@, beta),
+        trim_ok(pp, supported_degree, hb, bounds, ck, vk),
+        bounds is Some ==> forall|i: int| 0 <= i < bounds->Some_0@.len() ==> (#[trigger] bounds->Some_0@[i]) < pp.powers_of_g@.len(),
+    ensures
+        m_srs_ok(ck, vk, beta)
+{
+    let n = pp.powers_of_g@.len(); let md = (n - 1) as usize;
+    ax_mul_one(g); ax_mul_one(gm);
+    assert(vk.vk.g@ == g && vk.vk.gamma_g@ == gm);
+    assert(geometric(g1views(ck.powers@), g, beta, 0)) by {
+        assert forall|i: int| 0 <= i < g1views(ck.powers@).len() implies #[trigger] g1views(ck.powers@)[i] == f_mul(g, f_pow(beta, 0 + i as nat)) by { assert(ck.powers@[i] == pp.powers_of_g@[i]); }
+    }
+    assert(geometric(g1views(ck.powers_of_gamma_g@), gm, beta, 0)) by {
+        assert forall|i: int| 0 <= i < g1views(ck.powers_of_gamma_g@).len() implies #[trigger] g1views(ck.powers_of_gamma_g@)[i] == f_mul(gm, f_pow(beta, 0 + i as nat)) by {
+            let iu = i as usize;
+            assert(iu <= hb + 1 && iu as nat == i as nat);
+            assert(ck.powers_of_gamma_g@[i] == pp.powers_of_gamma_g@[iu]);
+            assert(pp.powers_of_gamma_g@[iu]@ == f_mul(gm, f_pow(beta, iu as nat)));
+        }
+    }
+    if ck.shifted_powers is Some {
+        let eb = ck.enforced_degree_bounds->Some_0@; let tbl = vk.degree_bounds_and_shift_powers->Some_0@; let sp = ck.shifted_powers->Some_0@;
+        // every enforced bound is a requested bound, hence below the number of powers
+        assert forall|i: int| 0 <= i < eb.len() implies (#[trigger] eb[i]) <= md by {
+            assert(eb.contains(eb[i])); assert(bounds->Some_0@.contains(eb[i]));
+            let j = choose|j: int| 0 <= j < bounds->Some_0@.len() && bounds->Some_0@[j] == eb[i];
+            assert(bounds->Some_0@[j] < n);
+        }
+        assert(eb.len() > 0) by { assert(bounds->Some_0@.contains(bounds->Some_0@[0])); }
+        assert(eb.last() <= md);
+        let off = (md - eb.last()) as nat;
+        assert(geometric(g1views(sp), g, beta, off)) by {
+            assert forall|i: int| 0 <= i < g1views(sp).len() implies #[trigger] g1views(sp)[i] == f_mul(g, f_pow(beta, off + i as nat)) by {
+                assert(sp[i] == pp.powers_of_g@[md - eb.last() + i]);
+                assert((md - eb.last() + i) as nat == off + i as nat);
+            }
+        }
+        assert forall|i: int| 0 <= i < tbl.len() implies (#[trigger] tbl[i]).0 <= ck.max_degree && tbl[i].1@ == f_mul(g, f_pow(beta, (ck.max_degree - tbl[i].0) as nat)) by {
+            assert(tbl[i].0 == eb[i] && tbl[i].1 == pp.powers_of_g@[md - eb[i]]);
+        }
+    }
 }
